@@ -10,5 +10,6 @@ def run(chk, ctx):
                        "oracle checks: ballots ranking exactly S first > k quotas + allowance  =>  >= min(k,|S|) members of S elected; scope: final elected set")
     cc.run(chk, ctx, 'final', ORACLES, 600, 60000, families=['small', 'coalition', 'coalition', 'coalition', 'tie', 'nearquota', 'chain', 'withdrawn'],
            rules=cd.RULES + cd.RULES + ['wigm', 'meek', 'warren', 'wigm-prf-batch', 'cfer-batch', 'wigm-prf-batch', 'cfer-batch'], tweak=tweak,
-           extra=[('directed-batch', 3000, 100000, ['wigm-prf-batch', 'cfer-batch', 'wigm-prf-batch', 'cfer-batch', 'mpls', 'meek', 'wigm', 'meek-prf', 'scotland'], ['coalition'])])
+           extra=[('directed-batch', 3000, 100000, ['wigm-prf-batch', 'cfer-batch', 'wigm-prf-batch', 'cfer-batch', 'mpls', 'meek', 'wigm', 'meek-prf', 'scotland'], ['coalition']),
+                  ('directed-cotie', 400, 20000, ['wigm', 'wigm', 'wigm', 'scotland', 'wigm-prf', 'cfer', 'mpls', 'meek'], ['cotie'])])
 def replay(chk, payload): return cc.replay(chk, payload, ORACLES)
